@@ -378,6 +378,16 @@ impl Target {
     /// threads run.  Returns false on timeout.
     pub fn wait_settled(&self, spec: &TSpec) -> bool {
         let deadline = Instant::now() + Duration::from_millis(2000);
+        // the main thread must have reached its command loop (blocked in read)
+        loop {
+            if std::fs::read_to_string(format!("/proc/{}/task/{}/syscall", self.pid, self.pid)).map(|s| s.starts_with("0 ")).unwrap_or(false) {
+                break;
+            }
+            if Instant::now() > deadline {
+                return false;
+            }
+            std::thread::sleep(Duration::from_micros(300));
+        }
         for t in &spec.threads {
             let tid = self.tid(t.id);
             loop {
